@@ -136,6 +136,16 @@ def batches(rng, tier):
                     b = tuple(min(chi, x + r.range(1, 3)) for x in a)
                 ops.append(f"pairs {T} 2 {vs(a)} {vs(b)} {lo} {hi} {clo} {chi}")
             yield Batch(f"pairs-{T}2-sampledA", ops, note="seeded sample of boxes A (half of them non-empty) against every box B of the full range")
+    # ---- pairs, n = 3: small corner range, all pairs (thorough) / sampled A (quick)
+    for T, (clo, chi, lo, hi) in {"i": (-1, 1, -2, 2), "u": (0, 2, 0, 3)}.items():
+        cs = cube(clo, chi, 3)
+        if thorough:
+            ops = [f"pairs {T} 3 {vs(a)} {vs(b)} {lo} {hi} {clo} {chi}" for a in cs for b in cs]
+            yield Batch(f"pairs-{T}3-small", ops, exhaustive=True, note=f"all pairs of 3-D boxes with corners in [{clo},{chi}] x all lattice points of [{lo},{hi}]^3")
+        else:
+            r = rng.fork("pairs3" + T)
+            ops = [f"pairs {T} 3 {vs(r.choice(cs))} {vs(r.choice(cs))} {lo} {hi} {clo} {chi}" for _ in range(60)]
+            yield Batch(f"pairs-{T}3-small-sampledA", ops, note=f"seeded 3-D boxes A against every 3-D box B with corners in [{clo},{chi}]")
     # ---- 3-D and large coordinates: seeded random
     r = rng.fork("rand")
     cnt = 20000 if thorough else 4000
